@@ -16,10 +16,15 @@ func (id DeploymentID) Equals(other DeploymentID) bool {
 
 // Validate method for DeploymentID and returns nil
 func (id DeploymentID) Validate() error {
-	_, err := sdk.AccAddressFromBech32(id.Owner)
+	owner, err := sdk.AccAddressFromBech32(id.Owner)
 	switch {
 	case err != nil:
 		return sdkerrors.Wrap(sdkerrors.ErrInvalidAddress, "DeploymentID: Invalid Owner Address")
+	case owner.String() != id.Owner:
+		// store keys and the escrow account id are built from the owner string itself; another spelling of the
+		// same address (bech32 also has an all-upper-case form) would name a different record than the one the
+		// escrow hooks look up
+		return sdkerrors.Wrap(sdkerrors.ErrInvalidAddress, "DeploymentID: Owner Address not in canonical form")
 	case id.DSeq == 0:
 		return sdkerrors.Wrap(sdkerrors.ErrInvalidSequence, "DeploymentID: Invalid Deployment Sequence")
 	}
